@@ -268,29 +268,52 @@ class C15:
             site = f"{file}:{s.node.lineno} {fname}"
             step, sr, est = ("param", "step"), ("param", "samplerate"), ("param", "estimate_step")
             stepkey = ("attr", ("attr", ("global", "soundevent.arrays.attributes:DimAttrs", "class"), "step"), "value")
-            st = [e for e in s.of("store") if e.term[1][0] == "sub" and e.term[1][2] == stepkey]
-            var = [r.term for r in s.returns if r.term[0] == "call" and r.term[1] == ("ext", "xarray.Variable")]
-            if len(st) != 1 or len(var) != 1:
-                ctx.undec("R15.3", site, "step attribute store / Variable not found")
-                continue
+            def recorded(env):
+                """(value recorded under the step key, data term) of the Variable returned in the scenario `env`."""
+                rets = [r for r in s.returns if r.term[0] == "call" and r.term[1] == ("ext", "xarray.Variable") and peval(r.live, env) == ("const", True)]
+                if len(rets) != 1 or any(peval(r.live, env)[0] != "const" for r in s.returns):
+                    return None
+                kw = callkw(rets[0].term)
+                at = kw.get("attrs")
+                val = None
+                if at is not None and at[0] == "dict":
+                    for k, v in at[1]:
+                        if k == stepkey:
+                            val = v
+                for e in s.of("store"):
+                    if e.term[1] == ("sub", at, stepkey) and e.idx < rets[0].idx:
+                        lv = peval(e.live, env)
+                        if lv[0] != "const":
+                            return None
+                        if lv[1]:
+                            val = e.term[2]
+                return (peval(val, env) if val is not None else None), kw.get("data")
+
             env = {("cmp", "is", step, NONE): False, ("cmp", "isnot", step, NONE): True, est: False,
                    ("cmp", "is", sr, NONE): True, ("cmp", "isnot", sr, NONE): False}
-            v = peval(st[0].term[2], env)
-            lv = peval(st[0].live, env)
-            data_ok = callkw(var[0]).get("data") == ("param", s.params[0])
-            if v == step and lv == ("const", True) and data_ok:
+            got = recorded(env)
+            if got is None:
+                ctx.undec("R15.3", site, "step attribute store / Variable not found")
+                continue
+            v, data_t = got
+            if v == step and data_t == ("param", s.params[0]):
                 ctx.ok("R15.3", site, "a given step is recorded unchanged; the coordinates are stored as given")
             else:
-                ctx.bad("R15.3", file, fname, f"attrs[step] = {show(v)[:40]}",
-                        f"{fname} must record the step it is given (found {show(v)[:50]} under {show(lv)[:30]}) and keep the coordinates unchanged",
+                ctx.bad("R15.3", file, fname, f"attrs[step] = {show(v)[:40] if v else 'missing'}",
+                        f"{fname} must record the step it is given (found {show(v)[:50] if v else 'no step attribute'}) and keep the coordinates unchanged",
                         s.node.lineno)
             if has_sr:
-                env2 = {("cmp", "is", sr, NONE): False, ("cmp", "isnot", sr, NONE): True, est: False, ("cmp", "is", step, NONE): True, ("cmp", "isnot", step, NONE): False}
-                v2 = peval(st[0].term[2], env2)
-                if canon(v2) == canon(("bin", "/", ("const", 1), sr)):
+                inv = ("bin", "/", ("const", 1), sr)
+                env2 = {("cmp", "is", sr, NONE): False, ("cmp", "isnot", sr, NONE): True, est: False, ("cmp", "is", step, NONE): True, ("cmp", "isnot", step, NONE): False,
+                        ("cmp", "is", inv, NONE): False, ("cmp", "isnot", inv, NONE): True}
+                got2 = recorded(env2)
+                v2 = got2[0] if got2 else None
+                if v2 is not None and canon(v2) == canon(inv):
                     ctx.ok("R15.3", site, "samplerate given: step = 1 / samplerate")
+                elif got2 is None:
+                    ctx.undec("R15.3", site, "samplerate scenario not resolved")
                 else:
-                    ctx.bad("R15.3", file, fname, f"samplerate -> step {show(v2)[:40]}", "with a samplerate the step must be 1 / samplerate", s.node.lineno)
+                    ctx.bad("R15.3", file, fname, f"samplerate -> step {show(v2)[:40] if v2 else 'missing'}", "with a samplerate the step must be 1 / samplerate", s.node.lineno)
 
 
 def run(ctx: Ctx):
